@@ -38,6 +38,7 @@ for sid in ids:
         m = re.search(r"demo_pristine=(\d+) demo_patched=(\d+) suite=\[(.*)\]", line)
         if m:
             meta['confirmed'].update({'demo_exit_on_pristine_tree': int(m.group(1)), 'demo_exit_with_patch': int(m.group(2)),
-                                      'suite_with_patch': m.group(3), 'confirmed_at_repo_head': head})
+                                      'suite_with_patch': m.group(3),
+                                      'confirmed_at_repo_head': (re.search(r"head=(\w+)", line) or [None, head])[1]})
     json.dump(meta, open(f'{d}/meta.json', 'w'), indent=1)
     print(sid, 'caught_by', meta['caught_by'], meta['confirmed'].get('suite_with_patch'))
